@@ -267,8 +267,195 @@ def res_json(r):
     return ["flt", n, d]
 
 
+# ------------------------------------------------------------------ definitions (for C10 / C03)
+# The field sequence and group structure of the message definitions I can vouch for from RTCM 10403.3 and IGS SSR
+# v1.00: observations 1001-1004 / 1009-1012, station messages 1005-1008 / 1033, ephemerides 1019 / 1020, 1029, 1230,
+# SSR 1057-1068, all 49 MSM (built from the per-level pattern below) and the IGS SSR sub-types 021-027 of the six
+# constellations plus 201.  Syntax: digits = DFnnn, Innn = IDFnnn, other words are literal attribute names;
+# [COUNTER a b c] is a group repeated COUNTER times (a number, a field, or FIELD+1 = the per-group-index value of a
+# counter decoded in the enclosing group); {FIELD=V a b} is present when FIELD = V.  One-directional: identities
+# not listed are free.
+_SSR_H = "002 %s 391 388 %s413 414 415 387"
+_DEF_PINS = {
+    "1001": "002 003 004 005 006 007 008 [006 009 010 011 012 013]",
+    "1002": "002 003 004 005 006 007 008 [006 009 010 011 012 013 014 015]",
+    "1003": "002 003 004 005 006 007 008 [006 009 010 011 012 013 016 017 018 019]",
+    "1004": "002 003 004 005 006 007 008 [006 009 010 011 012 013 014 015 016 017 018 019 020]",
+    "1005": "002 003 021 022 023 024 141 025 142 001_1 026 364 027",
+    "1006": "002 003 021 022 023 024 141 025 142 001_1 026 364 027 028",
+    "1007": "002 003 029 [029 030] 031",
+    "1008": "002 003 029 [029 030] 031 032 [032 033]",
+    "1009": "002 003 034 005 035 036 037 [035 038 039 040 041 042 043]",
+    "1010": "002 003 034 005 035 036 037 [035 038 039 040 041 042 043 044 045]",
+    "1011": "002 003 034 005 035 036 037 [035 038 039 040 041 042 043 046 047 048 049]",
+    "1012": "002 003 034 005 035 036 037 [035 038 039 040 041 042 043 044 045 046 047 048 049 050]",
+    "1019": "002 009 076 077 078 079 071 081 082 083 084 085 086 087 088 089 090 091 092 093 094 095 096 097 098 099 100 "
+            "101 102 103 137",
+    "1020": "002 038 040 104 105 106 107 108 109 110 111 112 113 114 115 116 117 118 119 120 121 122 123 124 125 126 127 "
+            "128 129 130 131 132 133 134 135 136 001_7",
+    "1029": "002 003 051 052 138 139 [139 140]",
+    "1033": "002 003 029 [029 030] 031 032 [032 033] 227 [227 228] 229 [229 230] 231 [231 232]",
+    "1230": "002 003 421 001_3 422_1 422_2 422_3 422_4 {422_1=1 423} {422_2=1 424} {422_3=1 425} {422_4=1 426}",
+    "1057": _SSR_H % ("385", "375 ") + " [387 068 071 365 366 367 368 369 370]",
+    "1058": _SSR_H % ("385", "") + " [387 068 376 377 378]",
+    "1059": _SSR_H % ("385", "") + " [387 068 379 [379+1 380 383]]",
+    "1060": _SSR_H % ("385", "375 ") + " [387 068 071 365 366 367 368 369 370 376 377 378]",
+    "1061": _SSR_H % ("385", "") + " [387 068 389]",
+    "1062": _SSR_H % ("385", "") + " [387 068 390]",
+    "1063": _SSR_H % ("386", "375 ") + " [387 384 392 365 366 367 368 369 370]",
+    "1064": _SSR_H % ("386", "") + " [387 384 376 377 378]",
+    "1065": _SSR_H % ("386", "") + " [387 384 379 [379+1 381 383]]",
+    "1066": _SSR_H % ("386", "375 ") + " [387 384 392 365 366 367 368 369 370 376 377 378]",
+    "1067": _SSR_H % ("386", "") + " [387 384 389]",
+    "1068": _SSR_H % ("386", "") + " [387 384 390]",
+}
+# MSM: header with the constellation's epoch field(s), masks, then one group per satellite column and per cell column
+_MSM_EPOCH = {107: "004", 108: "416 034", 109: "248", 110: "004", 111: "428", 112: "427", 113: "546"}
+_MSM_SATCOLS = {1: ["398"], 2: ["398"], 3: ["398"], 4: ["397", "398"], 5: ["397", "EXT", "398", "399"],
+                6: ["397", "398"], 7: ["397", "EXT", "398", "399"]}
+_MSM_SIGCOLS = {1: ["400"], 2: ["401", "402", "420"], 3: ["400", "401", "402", "420"], 4: ["400", "401", "402", "420", "403"],
+                5: ["400", "401", "402", "420", "403", "404"], 6: ["405", "406", "407", "420", "408"],
+                7: ["405", "406", "407", "420", "408", "404"]}
+for _g, _ep in _MSM_EPOCH.items():
+    for _l in range(1, 8):
+        _ext = "419" if _g == 108 else "ExtSatInfo"     # GLONASS: frequency channel; others: extended satellite info
+        _DEF_PINS["%d%d" % (_g, _l)] = " ".join(
+            ["002 003", _ep, "393 409 001_7 411 412 417 418 394 395 396", "[NSat PRN]"]
+            + ["[NSat %s]" % (_ext if c == "EXT" else c) for c in _MSM_SATCOLS[_l]]
+            + ["[NCell CELLPRN CELLSIG]"] + ["[NCell %s]" % c for c in _MSM_SIGCOLS[_l]])
+# IGS SSR v1.00: sub-type = 20 * constellation + level
+_IGS_H = "002 I001 I002 I003 I004 I005 I007 I008 I009"
+_IGS_LVL = {1: " I006 I010 [I010 I011 I012 I013 I014 I015 I016 I017 I018]",
+            2: " I010 [I010 I011 I019 I020 I021]",
+            3: " I006 I010 [I010 I011 I012 I013 I014 I015 I016 I017 I018 I019 I020 I021]",
+            4: " I010 [I010 I011 I022]",
+            5: " I010 [I010 I011 I023 [I023+1 I024 I025]]",
+            6: " I032 I033 I010 [I010 I011 I023 I026 I027 [I023+1 I024 I029 I030 I031 I028]]",
+            7: " I010 [I010 I011 I034]"}
+for _c in range(1, 7):
+    for _l, _t in _IGS_LVL.items():
+        _DEF_PINS["4076_%03d" % (20 * _c + _l)] = _IGS_H + _t
+_DEF_PINS["4076_201"] = _IGS_H + " I041 I035 [I035 I036 I037 I038 [_NHarmCoeffC I039] [_NHarmCoeffS I040]]"
+
+
+def _pin_name(w):
+    if w[0].isdigit():
+        return "DF" + w
+    if w[0] == "I" and w[1:].isdigit():
+        return "IDF" + w[1:]
+    return w
+
+
+def def_pin_tree(key):
+    """the pinned definition as a tree: name | ("g", counter, [..]) | ("o", name, value, [..]);
+    counter = int | (name, nest)"""
+    toks = _DEF_PINS[key].replace("[", " [ ").replace("]", " ] ").replace("{", " { ").replace("}", " } ").split()
+    pos = [0]
+
+    def items(end):
+        out = []
+        while pos[0] < len(toks) and toks[pos[0]] != end:
+            t = toks[pos[0]]
+            pos[0] += 1
+            if t == "[":
+                c = toks[pos[0]]
+                pos[0] += 1
+                if c.isdigit() and len(c) < 3:
+                    cnt = int(c)
+                elif c.endswith("+1"):
+                    cnt = (_pin_name(c[:-2]), 1)
+                else:
+                    cnt = (_pin_name(c), 0)
+                body = items("]")
+                pos[0] += 1
+                out.append(("g", cnt, body))
+            elif t == "{":
+                n, v = toks[pos[0]].split("=")
+                pos[0] += 1
+                body = items("}")
+                pos[0] += 1
+                out.append(("o", _pin_name(n), int(v), body))
+            else:
+                out.append(_pin_name(t))
+        return out
+    return items(None)
+
+
+def def_pin_tokens(tree):
+    """the flat token form compared in Lean (`defTokens`)"""
+    out = []
+    for it in tree:
+        if isinstance(it, str):
+            out.append(it)
+        elif it[0] == "g":
+            out.append("[" + (str(it[1]) if isinstance(it[1], int) else "%s+%d" % it[1]))
+            out += def_pin_tokens(it[2])
+            out.append("]")
+        else:
+            out.append("{%s=%d" % (it[1], it[2]))
+            out += def_pin_tokens(it[3])
+            out.append("}")
+    return out
+
+
+def def_pin_items(tree, fid):
+    """the pinned definition in the translator's item form, with the current table's field ids (`fid`: name -> id);
+    raises KeyError when a pinned field does not exist"""
+    out = []
+    for it in tree:
+        if isinstance(it, str):
+            out.append(["field", fid[it]])
+        elif it[0] == "g":
+            c = ["fixed", it[1]] if isinstance(it[1], int) else ["attr", fid[it[1][0]], it[1][1]]
+            out.append(["group", c, def_pin_items(it[2], fid)])
+        else:
+            out.append(["opt", fid[it[1]], it[2], def_pin_items(it[3], fid)])
+    return out
+
+
+def tokens_of_items(items, names):
+    """the same token form from the translator's items (`names`: id -> attribute name)"""
+    out = []
+    for it in items:
+        if it[0] == "field":
+            out.append(names[it[1]])
+        elif it[0] == "group":
+            c = it[1]
+            out.append("[" + (str(c[1]) if c[0] == "fixed" else "%s+%d" % (names[c[1]], c[2])))
+            out += tokens_of_items(it[2], names)
+            out.append("]")
+        elif it[0] == "opt":
+            out.append("{%s=%d" % (names[it[1]], it[2]))
+            out += tokens_of_items(it[3], names)
+            out.append("}")
+        else:
+            out.append("?")
+    return out
+
+
+DEF_PIN_KEYS = sorted(_DEF_PINS)
+
+
+def write_defs_lean(path):
+    def lab(s):
+        return "[" + ", ".join(str(ord(c)) for c in s) + "]"
+    out = ["-- Hand-pinned message definitions (field sequence and group structure; RTCM 10403.3, IGS SSR v1.00);",
+           "-- written out by harness/pinned.py.  Token form: field name | \"[\" counter … \"]\" | \"{\" field=value … \"}\".",
+           "import Rtcm.Model.Basic", "namespace Rtcm.Pinned", "open Rtcm", "",
+           "def defs : List (Ident × List Label) := ["]
+    rows = []
+    for k in DEF_PIN_KEYS:
+        num, sub = (int(k), "none") if "_" not in k else (4076, "(some %d)" % int(k[5:]))
+        toks = def_pin_tokens(def_pin_tree(k))
+        rows.append("  (⟨%d, %s⟩, [%s]) /- %s: %s -/" % (num, sub, ", ".join(lab(t) for t in toks), k, " ".join(toks)))
+    out.append(",\n".join(rows))
+    out += ["]", "", "end Rtcm.Pinned", ""]
+    open(path, "w").write("\n".join(out))
+
+
 if __name__ == "__main__":
     import os
     import sys
     write_lean(sys.argv[1])
     write_fields_lean(os.path.join(os.path.dirname(sys.argv[1]), "Fields.lean"))
+    write_defs_lean(os.path.join(os.path.dirname(sys.argv[1]), "Defs.lean"))
